@@ -90,7 +90,7 @@ Qed.
 Lemma addr_range : forall x, is_addr x -> in_range two160 x.
 Proof. auto. Qed.
 
-Theorem ck_args_wt : forall cast gid o, wf_gid gid -> wf_obj o -> wt_args (ck_args cast gid o).
+Theorem ck_args_wt : forall (cast : casts) gid o, wf_gid gid -> wf_obj o -> wt_args (ck_args cast gid o).
 Proof.
   intros cast gid o [G _] W. pose proof (b32_range _ G) as RG.
   assert (RT : forall k, in_range two256 (tag_of k)) by (intros []; vm_compute; split; congruence).
@@ -123,69 +123,105 @@ Ltac nth_eq H i Hn :=
 
 (* ================= Go vs Solidity: the int64 cast ================= *)
 
-Lemma map_u64v_small {A} : forall (f : A -> Z) l,
-  Forall (fun m => 0 <= f m < two63) l -> map (fun m => u64v true (f m)) l = map (fun m => u64v false (f m)) l.
+Lemma u64v_small_eq : forall c x, 0 <= x < two63 -> u64v c x = x.
+Proof. intros [] x H; simpl; auto. apply go_u64_small; auto. Qed.
+
+Lemma map_u64v_small {A} : forall c (f : A -> Z) l,
+  Forall (fun m => 0 <= f m < two63) l -> map (fun m => u64v c (f m)) l = map (fun m => u64v false (f m)) l.
 Proof.
-  intros f l F. induction F; simpl; auto. f_equal; auto. apply go_u64_small. assumption.
+  intros c f l F. induction F; simpl; auto. f_equal; auto. apply u64v_small_eq. assumption.
 Qed.
 
-Theorem ck_args_small : forall gid o, wf_obj o -> u64_small o ->
-  go_checkpoint_args gid o = sol_checkpoint_args gid o.
+(* whatever subset of the uint64 fields the Go code casts *)
+Theorem ck_args_small : forall cs gid o, wf_obj o -> u64_small o ->
+  ck_args cs gid o = sol_checkpoint_args gid o.
 Proof.
-  unfold go_checkpoint_args, sol_checkpoint_args. intros gid [s|b|c] W S; cbn [ck_args wf_obj u64_small] in *.
+  unfold sol_checkpoint_args. intros cs gid [s|b|c] W S; cbn [ck_args wf_obj u64_small nocast all_casts
+    k_set_nonce k_set_power k_b_nonce k_b_timeout k_c_nonce k_c_timeout k_c_evn] in *.
   - destruct W as ([N0 _] & F & _). destruct S as [N FS].
-    assert (E : map (fun m : Z * Z => u64v true (snd m)) (os_members s) = map (fun m => u64v false (snd m)) (os_members s)).
+    assert (E : map (fun m : Z * Z => u64v (k_set_power cs) (snd m)) (os_members s) = map (fun m => u64v false (snd m)) (os_members s)).
     { apply map_u64v_small. rewrite Forall_forall in *. intros x Hx. specialize (F x Hx). specialize (FS x Hx).
       destruct F as [_ [U _]]. lia. }
-    rewrite E. cbn [u64v]. rewrite go_u64_small by lia. reflexivity.
+    rewrite E. rewrite !u64v_small_eq by lia. reflexivity.
   - destruct W as ([N0 _] & [T0 _] & _). destruct S as [N T].
-    cbn [u64v]. rewrite !go_u64_small by lia. reflexivity.
+    rewrite !u64v_small_eq by lia. reflexivity.
   - destruct W as (_ & _ & _ & _ & _ & _ & _ & _ & _ & [N0 _] & [T0 _] & [E0 _]). destruct S as (N & T & E).
-    cbn [u64v]. rewrite !go_u64_small by lia. reflexivity.
+    rewrite !u64v_small_eq by lia. reflexivity.
 Qed.
 
-Theorem layout_agrees_small : forall gid o, wf_obj o -> u64_small o ->
-  go_preimage gid o = sol_preimage gid o.
-Proof. intros. unfold go_preimage, sol_preimage. rewrite ck_args_small; auto. Qed.
+Theorem layout_agrees_small : forall tron gid o, wf_obj o -> u64_small o ->
+  go_preimage tron gid o = sol_preimage gid o.
+Proof. intros. unfold go_preimage, sol_preimage, go_checkpoint_args. rewrite ck_args_small; auto. Qed.
 
-Lemma map_u64v_eq_small {A} : forall (f : A -> Z) l,
+Lemma u64v_fix : forall c x, is_u64 x -> (u64v c x = x <-> (c = true -> x < two63)).
+Proof.
+  intros [] x H; cbn [u64v].
+  - rewrite go_u64_fix by assumption. split; auto.
+  - split; auto. intros _ E. discriminate E.
+Qed.
+
+Lemma map_u64v_fix {A} : forall c (f : A -> Z) l,
   Forall (fun m => is_u64 (f m)) l ->
-  map (fun m => u64v true (f m)) l = map (fun m => u64v false (f m)) l -> Forall (fun m => f m < two63) l.
+  (map (fun m => u64v c (f m)) l = map (fun m => u64v false (f m)) l <-> (c = true -> Forall (fun m => f m < two63) l)).
 Proof.
-  intros f l F. induction F; simpl; intros E; constructor; injection E as E1 E2; auto.
-  apply go_u64_fix; assumption.
+  intros c f l F. induction F as [|x l Hx F IH]; cbn [map].
+  - split; auto.
+  - split.
+    + intros E Hc. injection E as E1 E2. constructor.
+      * apply (proj1 (u64v_fix c _ Hx)); auto.
+      * apply IH; auto.
+    + intros H. f_equal.
+      * apply (proj2 (u64v_fix c _ Hx)). intros Hc. specialize (H Hc). inversion H; auto.
+      * apply IH. intros Hc. specialize (H Hc). inversion H; auto.
 Qed.
 
-(* ... and only then: the Go pre-image equals the contract's exactly when no uint64 field is >= 2^63 *)
-Theorem layout_agrees_iff : forall gid o, wf_gid gid -> wf_obj o ->
-  (go_preimage gid o = sol_preimage gid o <-> u64_small o).
+(* ... and only then: the Go pre-image equals the contract's exactly when no uint64 field that the Go
+   code casts is >= 2^63 *)
+Theorem layout_agrees_iff : forall cs gid o, wf_gid gid -> wf_obj o ->
+  (encode (ck_args cs gid o) = sol_preimage gid o <-> u64_small_cs cs o).
 Proof.
-  intros gid o G W. split; [|apply layout_agrees_small; auto].
-  intros H. unfold go_preimage, sol_preimage in H.
-  apply encode_injective in H; try (apply ck_args_wt; auto); try (apply ck_args_sig; reflexivity).
-  unfold go_checkpoint_args, sol_checkpoint_args in H.
-  destruct o as [s|b|c]; cbn [ck_args wf_obj u64_small u64v] in *.
-  - destruct W as (N0 & F & _). nth_eq H 2%nat HN. nth_eq H 4%nat HM. split. apply go_u64_fix; auto.
-    apply (map_u64v_eq_small snd); auto. eapply Forall_impl; [|exact F]. intros a Ha. apply Ha.
-  - destruct W as (N0 & T0 & _). nth_eq H 5%nat HN. nth_eq H 7%nat HT. split; apply go_u64_fix; auto.
+  intros cs gid o G W. unfold sol_preimage, sol_checkpoint_args.
+  assert (A : encode (ck_args cs gid o) = encode (ck_args nocast gid o) <-> ck_args cs gid o = ck_args nocast gid o).
+  { split; [|intros ->; reflexivity]. intros H.
+    apply encode_injective in H; auto; try (apply ck_args_wt; auto); apply ck_args_sig; reflexivity. }
+  rewrite A. clear A.
+  destruct o as [s|b|c]; cbn [ck_args wf_obj u64_small_cs nocast all_casts
+    k_set_nonce k_set_power k_b_nonce k_b_timeout k_c_nonce k_c_timeout k_c_evn] in *.
+  - destruct W as (N0 & F & _).
+    assert (F' : Forall (fun m : Z * Z => is_u64 (snd m)) (os_members s)).
+    { eapply Forall_impl; [|exact F]. intros a Ha. apply Ha. }
+    rewrite <- (u64v_fix (k_set_nonce cs) _ N0). rewrite <- (map_u64v_fix (k_set_power cs) snd _ F'). split.
+    + intros H. nth_eq H 2%nat HN. nth_eq H 4%nat HM. auto.
+    + intros [HN HM]. cbn [u64v] in *. rewrite HN, HM. reflexivity.
+  - destruct W as (N0 & T0 & _).
+    rewrite <- (u64v_fix (k_b_nonce cs) _ N0), <- (u64v_fix (k_b_timeout cs) _ T0). split.
+    + intros H. nth_eq H 5%nat HN. nth_eq H 7%nat HT. auto.
+    + intros [HN HT]. cbn [u64v] in *. rewrite HN, HT. reflexivity.
   - destruct W as (_ & _ & _ & _ & _ & _ & _ & _ & _ & N0 & T0 & E0).
-    nth_eq H 9%nat HN. nth_eq H 10%nat HT. nth_eq H 11%nat HE.
-    repeat split; apply go_u64_fix; auto.
+    rewrite <- (u64v_fix (k_c_nonce cs) _ N0), <- (u64v_fix (k_c_timeout cs) _ T0), <- (u64v_fix (k_c_evn cs) _ E0). split.
+    + intros H. nth_eq H 9%nat HN. nth_eq H 10%nat HT. nth_eq H 11%nat HE. auto.
+    + intros (HN & HT & HE). cbn [u64v] in *. rewrite HN, HT, HE. reflexivity.
 Qed.
 
 Definition ex_big_set : obj := OSet {| os_nonce := two63; os_members := [] |}.
 
-Theorem uint64_cast_refuted :
-  exists gid o, wf_gid gid /\ wf_obj o /\ go_preimage gid o <> sol_preimage gid o.
+(* wherever the oracle-set nonce goes through int64(.), the full agreement is false *)
+Theorem uint64_cast_refuted : forall cs, k_set_nonce cs = true ->
+  exists gid o, wf_gid gid /\ wf_obj o /\ encode (ck_args cs gid o) <> sol_preimage gid o.
 Proof.
-  exists [], ex_big_set. split; [|split].
+  intros cs Hc. exists [], ex_big_set. split; [|split].
   - split. constructor. vm_compute. congruence.
   - unfold wf_obj, ex_big_set. cbn [os_nonce os_members]. split; [|split].
     + split; vm_compute; congruence.
     + constructor.
     + vm_compute. reflexivity.
-  - intro H. vm_compute in H. discriminate H.
+  - unfold sol_preimage, sol_checkpoint_args, ex_big_set. cbn [ck_args os_nonce os_members map]. rewrite Hc.
+    intro H. vm_compute in H. discriminate H.
 Qed.
+
+(* on this tree it does (both in the eth-like and in the tron function) - stated as a boolean so that a
+   repaired tree changes the value, not the provability, of anything in props/ *)
+Definition tree_casts_set_nonce : bool := k_set_nonce (go_casts false) && k_set_nonce (go_casts true).
 
 (* ================= the generated tables ================= *)
 
@@ -194,11 +230,11 @@ Definition table_args (t : option (list narg)) (gid : list Z) (o : obj) : option
 
 (* the hand-written Go argument tuple is the interpretation of the table generated from types.go + ABI JSON *)
 Theorem go_args_from_table : forall gid o,
-  table_args (norm_go_table (go_table (kind_of o))) gid o = Some (go_checkpoint_args gid o).
+  table_args (norm_go_table (go_table (kind_of o))) gid o = Some (go_checkpoint_args false gid o).
 Proof. intros gid [s|b|c]; cbv -[go_u64 b32_of_bytes map tag_of]; reflexivity. Qed.
 
 Theorem tron_args_from_table : forall gid o,
-  table_args (norm_go_table (tron_table (kind_of o))) gid o = Some (go_checkpoint_args gid o).
+  table_args (norm_go_table (tron_table (kind_of o))) gid o = Some (go_checkpoint_args true gid o).
 Proof. intros gid [s|b|c]; cbv -[go_u64 b32_of_bytes map tag_of]; reflexivity. Qed.
 
 Theorem sol_args_from_table : forall gid o,
@@ -208,7 +244,7 @@ Proof. intros gid [s|b|c]; cbv -[go_u64 b32_of_bytes map tag_of]; reflexivity. Q
 (* same sources, same ABI types, same order; the only difference is the int64 cast on the Go side *)
 Theorem tables_agree : forall k,
   option_map (map strip_cast) (norm_go_table (go_table k)) = norm_sol_table k (sol_table k)
-  /\ norm_go_table (tron_table k) = norm_go_table (go_table k)
+  /\ option_map (map strip_cast) (norm_go_table (tron_table k)) = norm_sol_table k (sol_table k)
   /\ norm_sol_table k (sol_table k) <> None.
 Proof. intros []; repeat split; try (vm_compute; reflexivity); vm_compute; discriminate. Qed.
 
@@ -220,9 +256,6 @@ Proof. split; reflexivity. Qed.
 
 (* a table row that interprets with the cast interprets to the same argument without it
    when the uint64 fields are small: agreement of the tables alone gives agreement of the bytes *)
-Lemma u64v_small_eq : forall c x, 0 <= x < two63 -> u64v c x = x.
-Proof. intros [] x H; simpl; auto. apply go_u64_small; auto. Qed.
-
 Lemma interp_strip : forall gid o n a, wf_obj o -> u64_small o ->
   interp_row gid o n = Some a -> interp_row gid o (strip_cast n) = Some a.
 Proof.
@@ -246,7 +279,7 @@ Proof.
       destruct (seqb p "ExternalAddress"); [discriminate|].
       destruct (seqb p "Power"); [|discriminate].
       destruct W as (_ & F & _). destruct S as [_ FS].
-      rewrite <- (map_u64v_small snd); [exact H|].
+      rewrite <- (map_u64v_small true snd); [exact H|].
       rewrite Forall_forall in *. intros m Hm. specialize (F m Hm). specialize (FS m Hm). destruct F as [_ [? _]]. lia.
     + rewrite orb_true_r in H. discriminate.
     + rewrite orb_true_r in H. discriminate.
@@ -276,13 +309,13 @@ Proof. intros [] [] H; try reflexivity; vm_compute in H; discriminate H. Qed.
 Lemma tag_range : forall k, in_range two256 (tag_of k).
 Proof. intros []; vm_compute; split; congruence. Qed.
 
-Lemma ck_args_head : forall c gid o, exists rest,
+Lemma ck_args_head : forall (c : casts) gid o, exists rest,
   encode (ck_args c gid o) = word (b32_of_bytes gid) ++ word (tag_of (kind_of o)) ++ rest.
 Proof.
   intros c gid [s|b|x]; cbn [ck_args kind_of]; unfold w32; apply encode_static_head2; reflexivity.
 Qed.
 
-Lemma preimage_kind : forall c c' g g' o o', wf_gid g -> wf_gid g' ->
+Lemma preimage_kind : forall (c c' : casts) g g' o o', wf_gid g -> wf_gid g' ->
   encode (ck_args c g o) = encode (ck_args c' g' o') ->
   b32_of_bytes g = b32_of_bytes g' /\ kind_of o = kind_of o'.
 Proof.
@@ -296,13 +329,16 @@ Proof.
   - apply tag_inj. apply word_inj; auto; apply tag_range.
 Qed.
 
-Lemma pairs_eq_cast : forall (a b : list (Z * Z)),
+Lemma u64v_inj : forall c x y, is_u64 x -> is_u64 y -> u64v c x = u64v c y -> x = y.
+Proof. intros [] x y Hx Hy E; cbn [u64v] in E; auto. apply go_u64_inj; auto. Qed.
+
+Lemma pairs_eq_cast : forall c (a b : list (Z * Z)),
   Forall (fun m => is_u64 (snd m)) a -> Forall (fun m => is_u64 (snd m)) b ->
-  map fst a = map fst b -> map (fun m => go_u64 (snd m)) a = map (fun m => go_u64 (snd m)) b -> a = b.
+  map fst a = map fst b -> map (fun m => u64v c (snd m)) a = map (fun m => u64v c (snd m)) b -> a = b.
 Proof.
-  induction a as [|[x y] a IH]; intros [|[x' y'] b] Fa Fb H1 H2; simpl in *; try discriminate; auto.
+  induction a as [|[x y] a IH]; intros [|[x' y'] b] Fa Fb H1 H2; cbn [map fst snd] in *; try discriminate; auto.
   injection H1 as -> H1. injection H2 as E H2. inversion Fa; inversion Fb; subst. cbn [snd] in *.
-  apply go_u64_inj in E; auto. subst. f_equal. auto.
+  apply u64v_inj in E; auto. subst. f_equal. auto.
 Qed.
 
 Lemma pairs_eq : forall (a b : list (Z * Z)), map fst a = map fst b -> map snd a = map snd b -> a = b.
@@ -321,24 +357,24 @@ Qed.
 (* what fxcore hashes for (gravity id, object) determines the gravity id word, the kind (method tag)
    and every field of the object: a signature over one tuple is a signature over no other tuple
    unless keccak collides *)
-Theorem go_preimage_injective : forall g g' o o',
+Theorem ck_preimage_injective : forall cs g g' o o',
   wf_gid g -> wf_gid g' -> wf_obj o -> wf_obj o' ->
-  go_preimage g o = go_preimage g' o' -> b32_of_bytes g = b32_of_bytes g' /\ o = o'.
+  encode (ck_args cs g o) = encode (ck_args cs g' o') -> b32_of_bytes g = b32_of_bytes g' /\ o = o'.
 Proof.
-  intros g g' o o' G G' W W' H. unfold go_preimage, go_checkpoint_args in H.
+  intros cs g g' o o' G G' W W' H.
   destruct (preimage_kind _ _ _ _ _ _ G G' H) as [EG EK]. split; auto.
   apply encode_injective in H; try (apply ck_args_wt; auto); try (apply ck_args_sig; auto).
-  destruct o as [s|b|c]; destruct o' as [s'|b'|c']; try discriminate EK; cbn [ck_args wf_obj u64v] in *.
+  destruct o as [s|b|c]; destruct o' as [s'|b'|c']; try discriminate EK; cbn [ck_args wf_obj] in *.
   - destruct s as [n m], s' as [n' m']. cbn [os_nonce os_members] in *.
     nth_eq H 2%nat HN. nth_eq H 3%nat HA. nth_eq H 4%nat HP.
     destruct W as (N0 & F & _), W' as (N0' & F' & _).
-    apply go_u64_inj in HN; auto. subst.
-    f_equal. f_equal. apply pairs_eq_cast; auto; eapply Forall_impl; try eassumption; intros a Ha; apply Ha.
+    apply u64v_inj in HN; auto. subst.
+    f_equal. f_equal. apply (pairs_eq_cast (k_set_power cs)); auto; eapply Forall_impl; try eassumption; intros a Ha; apply Ha.
   - destruct b as [n t txs tok fr], b' as [n' t' txs' tok' fr']. cbn [b_nonce b_timeout b_txs b_token b_feerecv] in *.
     nth_eq H 2%nat H1. nth_eq H 3%nat H2. nth_eq H 4%nat H3. nth_eq H 5%nat HN.
     nth_eq H 6%nat HK. nth_eq H 7%nat HT. nth_eq H 8%nat HF.
     destruct W as (N0 & T0 & _), W' as (N0' & T0' & _).
-    apply go_u64_inj in HN; auto. apply go_u64_inj in HT; auto. subst.
+    apply u64v_inj in HN; auto. apply u64v_inj in HT; auto. subst.
     f_equal. f_equal. apply transfers_eq; auto.
   - destruct c as [a1 a2 tk a3 d m n t e], c' as [a1' a2' tk' a3' d' m' n' t' e'].
     cbn [c_sender c_refund c_tokens c_to c_data c_memo c_nonce c_timeout c_event_nonce] in *.
@@ -346,15 +382,20 @@ Proof.
     nth_eq H 7%nat H6. nth_eq H 8%nat H7. nth_eq H 9%nat H8. nth_eq H 10%nat H9. nth_eq H 11%nat H10.
     destruct W as (_ & _ & _ & _ & _ & _ & _ & _ & _ & N0 & T0 & E0).
     destruct W' as (_ & _ & _ & _ & _ & _ & _ & _ & _ & N0' & T0' & E0').
-    apply go_u64_inj in H8; auto. apply go_u64_inj in H9; auto. apply go_u64_inj in H10; auto. subst.
+    apply u64v_inj in H8; auto. apply u64v_inj in H9; auto. apply u64v_inj in H10; auto. subst.
     f_equal. f_equal. apply pairs_eq; auto.
 Qed.
 
-Corollary go_preimage_separates : forall g g' o o',
+Theorem go_preimage_injective : forall tron g g' o o',
   wf_gid g -> wf_gid g' -> wf_obj o -> wf_obj o' ->
-  (b32_of_bytes g <> b32_of_bytes g' \/ o <> o') -> go_preimage g o <> go_preimage g' o'.
+  go_preimage tron g o = go_preimage tron g' o' -> b32_of_bytes g = b32_of_bytes g' /\ o = o'.
+Proof. intros tron. unfold go_preimage, go_checkpoint_args. apply ck_preimage_injective. Qed.
+
+Corollary go_preimage_separates : forall tron g g' o o',
+  wf_gid g -> wf_gid g' -> wf_obj o -> wf_obj o' ->
+  (b32_of_bytes g <> b32_of_bytes g' \/ o <> o') -> go_preimage tron g o <> go_preimage tron g' o'.
 Proof.
-  intros g g' o o' G G' W W' D E. destruct (go_preimage_injective _ _ _ _ G G' W W' E) as [E1 E2].
+  intros tron g g' o o' G G' W W' D E. destruct (go_preimage_injective _ _ _ _ _ G G' W W' E) as [E1 E2].
   destruct D; contradiction.
 Qed.
 
@@ -453,7 +494,7 @@ Section ConfirmProofs.
     intros st m k. unfold handle, accept_rule. split.
     - intros H.
       destruct (assoc okey_eqb (msg_okey m) (st_objs st)) as [o|] eqn:EO; [|discriminate].
-      destruct (go_checkpoint (st_gid st) o) as [pre|] eqn:EP; [|discriminate].
+      destruct (go_checkpoint (st_tron st) (st_gid st) o) as [pre|] eqn:EP; [|discriminate].
       destruct (m_sig m) as [sig|] eqn:ES; [|discriminate].
       destruct (assoc Z.eqb (m_external m) (st_ext_index st)) as [oa|] eqn:EI; [|discriminate].
       destruct (assoc Z.eqb oa (st_oracles st)) as [orc|] eqn:ER; [|discriminate].
@@ -620,7 +661,7 @@ Theorem confirm_nonvacuous :
     = Rejected EBridger /\
   handle rec_ok ex_state {| m_kind := KOracleSet; m_token := 0; m_nonce := 3; m_bridger := 21; m_external := 31; m_sig := Some (repeat 1 64) |}
     = Rejected ESignature /\
-  wf_obj ex_set /\ u64_small ex_set /\ zlen (go_preimage (st_gid ex_state) ex_set) = 352.
+  wf_obj ex_set /\ u64_small ex_set /\ zlen (go_preimage false (st_gid ex_state) ex_set) = 352.
 Proof.
   split; [vm_compute; reflexivity|]. split; [vm_compute; reflexivity|]. split; [vm_compute; reflexivity|].
   split; [vm_compute; reflexivity|]. split; [vm_compute; reflexivity|]. split; [vm_compute; reflexivity|].
